@@ -217,6 +217,11 @@ def _judge(cases, clean):
 
 
 def run_case(case):
+    if "batch" in case:
+        # a site that is wrong only in the file it shares with the other sites of its batch
+        vs, src, r = _judge(case["batch"], bool(case.get("clean")))
+        bv = vs[case["index"]]
+        return [] if bv is None else [{"case": case, "what": "only-next-to-other-sites:" + bv[0], "detail": bv[1][:600]}]
     if "hdr" in case:
         v = _judge_plugin(case)
         return [{"case": case, "what": v[0], "detail": v[1]}] if v else []
@@ -254,8 +259,11 @@ def run_task(task):
             # judge the site alone so that sites cannot influence each other's verdict
             single = run_case(c)
             if not single:
-                v = None
+                # right in a file of its own, wrong in this file: the file with all its sites is a test program too
                 out["outcomes"]["ok-alone-only"] = out["outcomes"].get("ok-alone-only", 0) + 1
+                out["violations"].append({"case": {"batch": cases, "index": i, "clean": clean}, "what": "only-next-to-other-sites:" + v[0],
+                                          "detail": "site %d of %d: %s\n--- site ---\n%s" % (i, len(cases), v[1][:600], _site_src(i, c))})
+                v = None
             else:
                 out["violations"] += single
                 lab = "viol:" + single[0]["what"]
